@@ -159,7 +159,7 @@ def run(res, tier, seed):
     # ---- D
     cfgs = ["MC_Nsec3", "MC_Nsec3_limits"] + (["MC_Nsec3_two", "MC_Nsec3_orders"] if thorough else [])
     for cfg in cfgs:
-        st = vlib.mc(mc_tla, os.path.join(vlib.SPEC, cfg + ".cfg"), wd, workers=8, timeout=2400)
+        st = vlib.mc(mc_tla, os.path.join(vlib.SPEC, cfg + ".cfg"), wd, workers=6, timeout=2400)
         res.add_mc(cfg, st)
     for wit in ["W_SecureForged", "W_BogusTrue", "W_Insecure"]:
         with open(os.path.join(vlib.SPEC, "MC_Nsec3_limits.cfg")) as f:
@@ -184,7 +184,7 @@ def run(res, tier, seed):
             "  Params <- G_Params", "  StaleParams <- G_Stale", f"  OptOuts = {oos}", f"  GenK = {k}",
             "INVARIANT Emit", "CHECK_DEADLOCK FALSE"]
         tla, cfg = vlib.wrapper(wd, name, "Gen_Nsec3, Nsec3Scopes", {"G_HT": ht, "G_Params": pset(zp), "G_Stale": pset(sp)}, cfg_lines)
-        rc, out = vlib.tlc(tla, cfg, wd, workers=8, timeout=3000, heap="12g")
+        rc, out = vlib.tlc(tla, cfg, wd, workers=6, timeout=3000, heap="12g")
         if rc != 0 or "No error has been found" not in out:
             i = out.find("Error:")
             vlib.log(out[i:i + 3000] if i >= 0 else out[-3000:])
